@@ -171,7 +171,7 @@ class Variant:
             g = self.groups[pl[0]]
             o = dict(k=done + 1, vi=self.vi, gi=g.gi, ii=pl[1] + 1, oi=pl[2] + 1, status=status, ok=False, end=0, val=[],
                      nval=[], store=[], g=0, events=[], errs=[], nomatch={"is": False, "pos": [], "exp": []}, budget=False, exprcnt=-1,
-                     escaped="", typed=True, innerok=True, prefixok=True, sorted=True, nilval=True, choices="", haschoices=False, choicestat=[],
+                     escaped="", typed=True, innerok=True, prefixok=True, sorted=True, nilval=True, choices="", haschoices=False, choicestat=[], stale=False,
                      detail=err[-400:] if status == "crash" else "")
             with open(ob, "a") as f:
                 f.write(json.dumps(o) + "\n")
